@@ -26,7 +26,7 @@ ASSUMPTIONS = [
     "with trailing bytes after an RTU frame the served payload must be the prefix of response_data() (the library's "
     "trim keeps the trailing bytes; sensors address the payload by offset)",
 ]
-MUST = ["typed_setting_write_echoes", "single_value_entry_points", "aa55_read_length_independent_of_count", "aa55_sum_ge_8000", "aa55_sum_ge_10000", "rtu_trailing", "end_to_end_success", "negative_write_echo", "overlapping_tcp_inverters", "same_object_sequences", "consecutive_slow_or_identical_answers", "requests_from_a_new_event_loop", "write_ack_payload_checked", "answer_from_another_comm_address",
+MUST = ["aa55_header_addresses", "typed_setting_write_echoes", "single_value_entry_points", "aa55_read_length_independent_of_count", "aa55_sum_ge_8000", "aa55_sum_ge_10000", "rtu_trailing", "end_to_end_success", "negative_write_echo", "overlapping_tcp_inverters", "same_object_sequences", "consecutive_slow_or_identical_answers", "requests_from_a_new_event_loop", "write_ack_payload_checked", "answer_from_another_comm_address",
         "accepted_rtu", "accepted_tcp", "accepted_aa55"]
 EXHAUSTIVE = {"quick": False, "thorough": False}
 CLASSES = ["random", "ff", "00", "7f80", "fe", "aa55"]
@@ -131,6 +131,15 @@ def direct(spec, part):
     for _ in range(20):
         d = {"framing": "aa55", "kind": "aa55write", "reg": rnd.randrange(65536), "value": rnd.randrange(65536), "rtype": "02B9"}
         check_one(g, part, d, rc.aa55_response("02B9", b"\x06"), "ack")
+    # the two address bytes of the AA55 header (source / destination) are the inverter's to choose - like the Modbus comm address
+    for addr in (b"\x7f\xc0", b"\xc0\x7f", b"\x7f\xab", b"\xb0\xc0", b"\x00\x00", b"\xff\xff", b"\xf7\xc0", bytes((rnd.randrange(256), rnd.randrange(256)))):
+        for cmdhex, rtype in (("010200", "0182"), ("010600", "0186"), ("010900", "0189")):
+            for plen in (0, 64, 142):
+                d = {"framing": "aa55", "kind": "raw", "cmdhex": cmdhex, "rtype": rtype, "plen": plen}
+                check_one(g, part, d, rc.aa55_response(rtype, payload_bytes(rnd, plen, "random"), addr), "random", "addr" + addr.hex())
+                part.count("aa55_header_addresses")
+        d = {"framing": "aa55", "kind": "aa55read", "reg": 1793, "count": 4, "rtype": "019A"}
+        check_one(g, part, d, rc.aa55_response("019A", payload_bytes(rnd, 8, "random"), addr), "random", "addr" + addr.hex())
 
 
 class ServePeer(ScriptedPeer):
